@@ -1,17 +1,22 @@
 (* C16, review round 2: how much of the refinement depends on package wire being canonical.
 
-   [wire_canonical] is a hypothesis about a dependency.  On bchd v0.20.0 it is FALSE for a small family
-   of inputs (an output script that starts with the CashToken prefix 0xef, a ZERO category id and a
-   well-formed token body is split by wire.readTxOut, but WriteTxOut treats a zero category as "no token
-   data" and writes the script without the prefix).  This file therefore
-   - replaces the global hypothesis by a per-input one ([constructed_pw]: the bytes NewBlockFromBytes kept
-     are the serialisation of the message it parsed) and proves the refinement from that alone; the three
-     other constructors need no hypothesis about wire at all;
+   [wire_canonical] (round 1's hypothesis) is FALSE of bchd v0.20.0 for a family of inputs: an output script
+   that starts with the CashToken prefix 0xef, a ZERO category id and a well-formed token body is split by
+   wire.readTxOut, but WriteTxOut treats a zero category as "no token data" and writes the script without
+   the prefix.  NewBlockFromBytes used to keep the consumed input whatever it was (genuine defect, repaired
+   by /repo 6ccc2c9: the input is kept only when it has the message's serialise size).  The theorems now
+   need only [wire_size_canonical].  This file
+   - replaces even that global hypothesis by a per-input one ([constructed_pw]: the bytes NewBlockFromBytes
+     kept, if any, are the serialisation of the message it parsed) and proves the refinement from that alone;
+     the three other constructors need no hypothesis about wire at all;
    - shows the per-input condition is also necessary ([from_bytes_fresh_iff]);
-   - gives a toy wire with REAL deserialisers that satisfies wire_canonical, wire_roundtrip and wire_txloc
-     together (the hypotheses of the C16 theorems are jointly satisfiable by a wire that accepts blocks), and
-   - a toy wire with two encodings of one transaction content on which Bytes() differs from a fresh
-     serialisation (the model reproduces the finding). *)
+   - gives a toy wire with REAL deserialisers that satisfies wire_canonical, wire_size_canonical, wire_roundtrip
+     and wire_txloc together (the hypotheses of the C16 theorems are jointly satisfiable by a wire that accepts
+     blocks);
+   - a toy wire that, like bchd, reads an encoding it writes back SHORTER: NewBlockFromBytes keeps nothing and
+     Bytes() is a fresh serialisation ([drop_example]); and
+   - a toy wire with two encodings OF EQUAL LENGTH of one transaction content, on which Bytes() still differs
+     from a fresh serialisation: [wire_size_canonical] cannot be dropped ([bytes_needs_size_canonical_wire]). *)
 From BU Require Import Lib.Bytes Lib.PolyMod Gen.Xbchutil Block.Block Block.BlockProofs.
 From Coq Require Import ZifyBool ZifyN ZifyNat.
 
@@ -35,7 +40,7 @@ Section Pointwise.
   | p_reader : forall next bytes w rest, new_block_from_reader txc hdr H W next bytes = Ok (w, rest) ->
       constructed_pw w (b_msg (w_blk w))
   | p_bytes : forall next bytes w, new_block_from_bytes txc hdr H W next bytes = Ok w ->
-      b_ser (w_blk w) = ser_block (b_msg (w_blk w)) ->
+      b_ser (w_blk w) = [] \/ b_ser (w_blk w) = ser_block (b_msg (w_blk w)) ->
       constructed_pw w (b_msg (w_blk w))
   | p_block_and_bytes : forall next m bytes, bytes = [] \/ bytes = ser_block m ->
       constructed_pw (new_block_from_block_and_bytes txc hdr H next m bytes) m.
@@ -47,11 +52,15 @@ Section Pointwise.
     - split; [apply good_fresh; auto|reflexivity].
     - unfold new_block_from_reader in Hr. destruct (deser_block _ _ _ W bytes) as [[[h cs] r]|]; [|discriminate].
       inversion Hr; subst. simpl. split; [apply good_fresh; auto|reflexivity].
-    - unfold new_block_from_bytes, new_block_from_reader in Hb.
-      destruct (deser_block _ _ _ W bytes) as [[[h cs] r]|] eqn:Hd; [|discriminate]. simpl in Hb.
-      destruct (Nat.leb (length r) (length bytes)); [|discriminate].
-      inversion Hb; subst w. simpl in *. split; [|reflexivity].
-      apply good_set_ser; [apply good_fresh; auto|]. right. exact Hser.
+    - assert (b_msg (w_blk w) = b_msg (w_blk w) /\ b_txs txc hdr H (w_blk w) = [] /\ b_hash txc hdr H (w_blk w) = None /\
+              b_gen txc hdr H (w_blk w) = false /\ b_height txc hdr H (w_blk w) = (-1)%Z) as [_ [Ht [Hh [Hg Hht]]]].
+      { unfold new_block_from_bytes, new_block_from_reader in Hb.
+        destruct (deser_block _ _ _ W bytes) as [[[h cs] r]|]; [|discriminate]. simpl in Hb.
+        destruct (Nat.leb (length r) (length bytes)); [|discriminate].
+        destruct (Nat.eqb _ _); inversion Hb; subst w; simpl; auto. }
+      split; [|exact Hht].
+      unfold good. rewrite Ht, Hh, Hg. repeat split; auto; try discriminate.
+      intros [|k] s0 Hk; discriminate.
     - split; [apply good_fresh; assumption|reflexivity].
   Qed.
 
@@ -63,27 +72,20 @@ Section Pointwise.
     destruct (run_refines txc hdr H W m ops w Hg) as [ids [_ Hrun]]. exists ids. rewrite Hrun, Hh. reflexivity.
   Qed.
 
-  (* a canonical wire makes every constructed block pointwise-constructed *)
+  (* under the hypothesis of the main theorems every constructed block is pointwise-constructed *)
   Lemma constructed_pw_of_canonical w m :
-    wire_canonical txc hdr H W -> constructed txc hdr H W w m -> constructed_pw w m.
+    wire_size_canonical txc hdr H W -> constructed txc hdr H W w m -> constructed_pw w m.
   Proof.
     intros Hcan Hc. destruct Hc as [next m|next bytes w rest Hr|next bytes w Hb|next m bytes Hpre].
     - constructor.
     - econstructor; eassumption.
     - apply (p_bytes next bytes w Hb).
-      destruct (constructed_good txc hdr H W w _ Hcan (c_bytes _ _ _ W next bytes w Hb)) as [[_ [[He|He] _]] _]; [|exact He].
-      (* the cache cannot be empty and differ: if it is empty the canonical serialisation is empty too *)
-      unfold new_block_from_bytes, new_block_from_reader in Hb.
-      destruct (deser_block _ _ _ W bytes) as [[[h cs] r]|] eqn:Hd; [|discriminate]. simpl in Hb.
-      destruct (Nat.leb (length r) (length bytes)); [|discriminate].
-      inversion Hb; subst w. simpl in *.
-      pose proof (Hcan bytes h cs r Hd (alloc_msgs txc next cs) (alloc_msgs_vals txc cs next)) as Hbytes.
-      rewrite Hbytes. apply app_firstn_exact.
+      destruct (constructed_good txc hdr H W w _ Hcan (c_bytes _ _ _ W next bytes w Hb)) as [[_ [He _]] _]. exact He.
     - constructor. assumption.
   Qed.
 
-  (* NewBlockFromBytes: Bytes() is the consumed input, so the first clause of C16 holds for the block
-     exactly when those bytes are the serialisation of the parsed message *)
+  (* NewBlockFromBytes: if it kept bytes, Bytes() returns them, so the first clause of C16 holds for the
+     block exactly when those bytes are the serialisation of the parsed message *)
   Theorem from_bytes_fresh_iff next bytes w :
     new_block_from_bytes txc hdr H W next bytes = Ok w ->
     b_ser (w_blk w) <> [] ->
@@ -147,6 +149,9 @@ Proof.
   rewrite Hl, N2Nat.id, firstn_skipn. reflexivity.
 Qed.
 
+Lemma toy_size_canonical : wire_size_canonical N N N toyW.
+Proof. apply canonical_size_canonical. exact toy_canonical. Qed.
+
 Lemma toy_roundtrip : wire_roundtrip N N N toyW.
 Proof.
   intros m rest. unfold ser_block. simpl. rewrite toy_concat, Nat2N.id.
@@ -176,7 +181,35 @@ Example toy_from_bytes :
       [OBytesV N [7; 2; 11; 12]; OLocsV N [(2, 1); (3, 1)]%nat; OTxV N (2, 1, 1%Z); OHashV N 4 111; OErr N E_RANGE].
 Proof. eexists. split; vm_compute; reflexivity. Qed.
 
-(* ---------- a wire with two encodings of one content: Bytes() is not a fresh serialisation ---------- *)
+(* ---------- a wire that, like bchd, reads an encoding it writes back shorter ---------- *)
+(* a transaction may be preceded by a 0 byte, which the reader skips (the "zero-category prefix") *)
+Fixpoint drop_txs (c : nat) (rest : list N) : option (list N * list N) :=
+  match c with
+  | O => Some ([], rest)
+  | S c' =>
+      match rest with
+      | 0 :: t :: r | t :: r => match drop_txs c' r with Some (ts, r') => Some (t :: ts, r') | None => None end
+      | [] => None
+      end
+  end.
+Definition drop_deser (bytes : list N) : option (N * list N * list N) :=
+  match bytes with
+  | h :: c :: rest => match drop_txs (N.to_nat c) rest with Some (ts, r) => Some (h, ts, r) | None => None end
+  | _ => None
+  end.
+Definition dropW : wire N N N :=
+  mk_wire N N N (fun h => [h]) (fun n => [N.of_nat n]) (fun t => [t]) (fun t => t + 100) (fun h => h + 200)
+    drop_deser (fun b => match b with t :: r => Some (t, r) | [] => None end) toy_txloc.
+
+(* 7 | count 2 | 0 11 | 12 | trailing 99: five bytes consumed, the message serialises to four: nothing is kept,
+   Bytes() and TxLoc() are computed from the message *)
+Example drop_example :
+  exists w, new_block_from_bytes N N N dropW 0 [7; 2; 0; 11; 12; 99] = Ok w /\
+    b_ser N N N (w_blk N N N w) = [] /\
+    run N N N dropW w [OpTxLoc; OpBytes; OpTxHash 0] = [OLocsV N [(2, 1); (3, 1)]%nat; OBytesV N [7; 2; 11; 12]; OHashV N 3 111].
+Proof. eexists. repeat split; vm_compute; reflexivity. Qed.
+
+(* ---------- a wire with two encodings OF EQUAL LENGTH of one content: Bytes() is not a fresh serialisation ---------- *)
 Definition alias_deser (bytes : list N) : option (N * list N * list N) :=
   match toy_deser bytes with
   | Some (h, cs, rest) => Some (h, map (fun b => if b =? 9 then 7 else b) cs, rest)
@@ -186,14 +219,14 @@ Definition aliasW : wire N N N :=
   mk_wire N N N (fun h => [h]) (fun n => [N.of_nat n]) (fun t => [t]) (fun t => t + 100) (fun h => h + 200)
     alias_deser (fun b => match b with t :: r => Some (t, r) | [] => None end) toy_txloc.
 
-Theorem bytes_needs_canonical_wire :
+Theorem bytes_needs_size_canonical_wire :
   exists (W : wire N N N) bytes w,
     new_block_from_bytes N N N W 0 bytes = Ok w /\
     run N N N W w [OpBytes] = [OBytesV N bytes] /\
     ser_block N N N W (b_msg N N N (w_blk N N N w)) <> bytes /\
-    ~ wire_canonical N N N W.
+    ~ wire_size_canonical N N N W.
 Proof.
   exists aliasW, [1; 1; 9]. eexists. split; [vm_compute; reflexivity|]. split; [vm_compute; reflexivity|].
   split; [vm_compute; discriminate|].
-  intros Hcan. specialize (Hcan [1; 1; 9] 1 [7] [] eq_refl [mk_mtx N 0 7] eq_refl). vm_compute in Hcan. discriminate.
+  intros Hcan. specialize (Hcan [1; 1; 9] 1 [7] [] eq_refl [mk_mtx N 0 7] eq_refl eq_refl). vm_compute in Hcan. discriminate.
 Qed.
